@@ -368,6 +368,7 @@ impl<C, B> ConnectionInner<C, B> where C: quic::Connection<B>, B: Buf {
         ensures final(self).same_but_error(old(self)) || (r matches Poll::Ready(Ok(_))),
             final(self).shared == old(self).shared, final(self).control_send == old(self).control_send,
             final(self).send_grease_frame == old(self).send_grease_frame, final(self).conn.opened() == old(self).conn.opened(),
+            final(self).ctrl_taken == old(self).ctrl_taken,
             match r {
                 Poll::Ready(Ok(s)) => final(self).conn.taken() == old(self).conn.taken().push(Taken { uid: s.uid(), id: s.sid() })
                     && s.uid() == old(self).conn.taken().len() && s.sid().0 < TWO62()
